@@ -50,6 +50,135 @@ impl RatesCache for InMemoryRatesCache {
     }
 }
 
+
+/// Crash-injection hooks for the cache write path (verification tooling only).
+/// All of this is a no-op unless a crash point has been selected, either through
+/// the thread-local setters, or the ACB_VERIF_CRASH environment variable
+/// ("bytes:<n>" or "step:<name>").
+#[cfg(feature = "verif_hooks")]
+pub mod verif_hooks {
+    use std::cell::RefCell;
+    use std::io::Write;
+
+    /// Panic payload used to simulate the process dying.
+    pub struct SimulatedCrash(pub String);
+
+    #[derive(Clone, Debug, PartialEq)]
+    pub enum CrashPoint {
+        /// Die once exactly this many bytes of the file have reached the OS.
+        AfterBytes(u64),
+        /// Die when the named step boundary is reached.
+        AtStep(String),
+    }
+
+    thread_local! {
+        static CRASH_POINT: RefCell<Option<CrashPoint>> = RefCell::new(None);
+        static STEP_LOG: RefCell<Vec<String>> = RefCell::new(Vec::new());
+        static DEAD: RefCell<bool> = RefCell::new(false);
+    }
+
+    pub fn set_crash_point(p: Option<CrashPoint>) {
+        CRASH_POINT.with(|c| *c.borrow_mut() = p);
+        STEP_LOG.with(|l| l.borrow_mut().clear());
+        DEAD.with(|d| *d.borrow_mut() = false);
+    }
+
+    /// Step names (and byte counts) seen since the last set_crash_point.
+    pub fn take_step_log() -> Vec<String> {
+        STEP_LOG.with(|l| std::mem::take(&mut *l.borrow_mut()))
+    }
+
+    fn crash_point() -> Option<CrashPoint> {
+        let p = CRASH_POINT.with(|c| c.borrow().clone());
+        if p.is_some() {
+            return p;
+        }
+        match std::env::var("ACB_VERIF_CRASH") {
+            Ok(v) => {
+                if let Some(n) = v.strip_prefix("bytes:") {
+                    n.parse().ok().map(CrashPoint::AfterBytes)
+                } else {
+                    v.strip_prefix("step:").map(|s| CrashPoint::AtStep(s.to_string()))
+                }
+            }
+            Err(_) => None,
+        }
+    }
+
+    fn die(what: String) -> ! {
+        DEAD.with(|d| *d.borrow_mut() = true);
+        if std::env::var("ACB_VERIF_CRASH").is_ok() {
+            // Real process: die without running any destructor.
+            std::process::abort();
+        }
+        std::panic::resume_unwind(Box::new(SimulatedCrash(what)));
+    }
+
+    pub fn is_dead() -> bool {
+        DEAD.with(|d| *d.borrow())
+    }
+
+    /// Marks a step boundary of the write procedure.
+    pub fn step(name: &str) {
+        if is_dead() {
+            return;
+        }
+        STEP_LOG.with(|l| l.borrow_mut().push(name.to_string()));
+        if let Some(CrashPoint::AtStep(s)) = crash_point() {
+            if s == name {
+                die(format!("step {}", name));
+            }
+        }
+    }
+
+    /// Wraps the file being written. Lets exactly the selected number of bytes
+    /// through, then dies. After death every byte is swallowed (so that
+    /// destructors which flush cannot complete the write).
+    pub struct CrashWriter<W: Write> {
+        inner: W,
+        written: u64,
+    }
+
+    impl<W: Write> CrashWriter<W> {
+        pub fn new(inner: W) -> Self {
+            CrashWriter { inner, written: 0 }
+        }
+        pub fn get_ref(&self) -> &W {
+            &self.inner
+        }
+    }
+
+    impl<W: Write> Write for CrashWriter<W> {
+        fn write(&mut self, buf: &[u8]) -> std::io::Result<usize> {
+            if is_dead() {
+                return Ok(buf.len());
+            }
+            if let Some(CrashPoint::AfterBytes(limit)) = crash_point() {
+                let room = limit.saturating_sub(self.written) as usize;
+                if room < buf.len() {
+                    if room > 0 {
+                        self.inner.write_all(&buf[..room])?;
+                        let _ = self.inner.flush();
+                        self.written += room as u64;
+                    }
+                    die(format!("after {} bytes", limit));
+                }
+            }
+            self.inner.write_all(buf)?;
+            self.written += buf.len() as u64;
+            STEP_LOG.with(|l| l.borrow_mut().push(format!("wrote:{}", self.written)));
+            Ok(buf.len())
+        }
+
+        fn flush(&mut self) -> std::io::Result<()> {
+            if is_dead() {
+                return Ok(());
+            }
+            self.inner.flush()
+        }
+    }
+}
+
 #[cfg(not(target_arch = "wasm32"))]
 pub mod csv {
     use std::{
@@ -208,6 +337,10 @@ pub mod csv {
                 }
             );
             let file = open_rates_csv_file_write(&self.dir_path, year)?;
+            #[cfg(feature = "verif_hooks")]
+            let file = super::verif_hooks::CrashWriter::new(file);
+            #[cfg(feature = "verif_hooks")]
+            super::verif_hooks::step("after-create");
 
             // CSV file of date,exchange_rate
 
@@ -220,7 +353,11 @@ pub mod csv {
                     ])
                     .map_err(|e| e.to_string())?;
             }
+            #[cfg(feature = "verif_hooks")]
+            super::verif_hooks::step("before-flush");
             let r = csv_w.flush().map_err(|e| e.to_string());
+            #[cfg(feature = "verif_hooks")]
+            super::verif_hooks::step("after-flush");
             if r.is_ok() {
                 trace!("CsvRatesCache::write_rates flushed ok");
             } else {
